@@ -20,15 +20,22 @@ MCNameMenu == { [cn |-> "foo", tn |-> "Foo"], [cn |-> "fooBar", tn |-> "FooBar"]
                 [cn |-> "foobar", tn |-> "Foobar"], [cn |-> "reset", tn |-> "Reset"],
                 [cn |-> "item", tn |-> "Item"] }
 MCNameMenuSmall == { [cn |-> "foo", tn |-> "Foo"], [cn |-> "fooBar", tn |-> "FooBar"], [cn |-> "foobar", tn |-> "Foobar"] }
+MCNameMenuOne == { [cn |-> "foo", tn |-> "Foo"] }
+MCMutationsNone == {}
 MCUnionMenu == { [tn |-> "Shape", vs |-> <<"shapeCircle", "shapeSquare", "shapeNone">>] }
-MCFieldNames == {"x", "y", "type", "func", "range", "Read", "Write", "String", "Reset",
-                 "TLName", "TLTag", "ReadJSON", "fields_mask", "item", "Item"}
+MCFieldNames == {"x", "y", "z", "w", "key", "value", "id", "count", "type", "func", "range", "map",
+                 "fields_mask", "item", "Item", "reset", "String"}
+(* catalogue of names of methods the Go generator emits for every struct *)
+MCFieldNamesMethods == {"x", "reset", "string", "tLTag", "tLName", "readJSON", "writeJSON", "readTL1", "writeTL1",
+                        "readTL2", "writeTL2", "read", "write", "fillRandom", "Reset", "String", "TLTag", "TLName",
+                        "ReadJSON", "Read", "Write"}
 MCFieldNamesSmall == {"x", "type", "String"}
 MCFieldNamesTiny == {"x", "type"}
 MCMutationsTiny == {"unknownref", "dupcomb", "selfbare"}
 MCKinds == {"nat", "int", "long", "string", "bool", "double", "mtrue", "mint", "vec", "maybe", "arr", "arrc",
             "tuplec", "ref", "rec", "dict", "dictany", "pair", "tinst"}
 MCKindsSmall == {"nat", "int", "string", "mtrue", "vec", "ref", "rec"}
+MCKindsInt == {"int"}
 MCKindsTLO == {"nat", "int", "string", "mint", "vec", "ref", "tinst"}
 MCMutations == {"dupfield", "unknownref", "masknonnat", "maskforward", "bit32", "dupcomb", "selfbare",
                 "arity", "natfortype", "upperctor", "syntax"}
